@@ -94,7 +94,7 @@ func StructShape(t *rapid.T) Shape {
 
 	switch idForm {
 	case "json-other":
-		id.JSON = rapid.SampledFrom([]string{"ident", "a", ""}).Draw(t, "idjson")
+		id.JSON = rapid.SampledFrom([]string{"ident", "a", "b", "c", "a-b", ""}).Draw(t, "idjson")
 	case "json-absent":
 		id.HasJSON = false
 	case "api-empty":
